@@ -43,11 +43,26 @@ fn filter_spec() -> impl Strategy<Value = FilterSpec> {
         2 => (0u8..4).prop_map(FilterSpec::FirstN),
         1 => Just(FilterSpec::NoErr),
         3 => (0u8..6, any::<bool>()).prop_map(|(n, a)| FilterSpec::Tpl(n, a)),
+        1 => Just(FilterSpec::SpanKindOnly),
+    ]
+}
+
+/// A property key (index into `rec::KEYS`): plain user keys, and keys that COLLIDE with emit's well-known keys - the
+/// span's own (`span_name`, `evt_kind`), the ones a completion may add (`lvl`, `err`), the ids of the frame
+/// (`trace_id`, `span_id`, `span_parent`) and event-metadata / metric names (`ts`, `ts_start`, `mdl`, `tpl`, `msg`,
+/// `metric_*`).
+fn prop_key() -> impl Strategy<Value = u8> {
+    prop_oneof![
+        10 => 0u8..6,
+        5 => 6u8..8,
+        2 => 8u8..10,
+        2 => 10u8..13,
+        1 => 13u8..21,
     ]
 }
 
 fn props_spec() -> impl Strategy<Value = Vec<(u8, i8)>> {
-    prop::collection::vec((0u8..6, any::<i8>()), 0..4)
+    prop::collection::vec((prop_key(), any::<i8>()), 0..4)
 }
 
 fn clock_script() -> impl Strategy<Value = Vec<Option<u32>>> {
@@ -72,8 +87,8 @@ fn case_a() -> impl Strategy<Value = CaseA> {
         1 => (0u8..5).prop_map(Op::WithMdl),
         1 => (0u8..6).prop_map(Op::WithName),
         1 => props_spec().prop_map(Op::WithProps),
-        1 => (0u8..6, any::<i8>()).prop_map(|(k, v)| Op::MapAppend(k, v)),
-        1 => (0u8..6, any::<i8>()).prop_map(|(k, v)| Op::MapPrepend(k, v)),
+        1 => (prop_key(), any::<i8>()).prop_map(|(k, v)| Op::MapAppend(k, v)),
+        1 => (prop_key(), any::<i8>()).prop_map(|(k, v)| Op::MapPrepend(k, v)),
         2 => comp_spec().prop_map(Op::WithCompletion),
         3 => Just(Op::Start),
     ];
@@ -113,9 +128,9 @@ fn case_b() -> impl Strategy<Value = CaseB> {
         prop::bool::weighted(0.85),
         any::<u32>(),
         clock_script(),
-        any::<i32>(),
+        (any::<i32>(), 0u8..128),
     )
-        .prop_map(|(site, exit, (filter, when), rng_avail, rng_seed, clock, x)| CaseB { site, exit, filter, when, rng_avail, rng_seed, clock, x })
+        .prop_map(|(site, exit, (filter, when), rng_avail, rng_seed, clock, (x, rename))| CaseB { site, exit, filter, when, rng_avail, rng_seed, clock, x, rename })
 }
 
 fn d2_probe(terminal: Terminal) -> CaseA {
